@@ -29,6 +29,10 @@ pub struct ExecCfg {
     pub max_early_fires: u32,
     /// lock acquisitions are scheduling points
     pub yield_at_lock: bool,
+    /// ... and whether a given acquisition suspends is itself a choice (an uncontended lock is
+    /// acquired without suspending on a real runtime; needed when a program polls a future
+    /// exactly once)
+    pub lock_yield_is_choice: bool,
     /// the `select!` shuffle is a choice (otherwise: source order)
     pub select_choice: bool,
     /// hard cap on choice points per execution (machinery error when hit)
@@ -45,6 +49,7 @@ impl Default for ExecCfg {
             horizon: u64::MAX,
             max_early_fires: 0,
             yield_at_lock: true,
+            lock_yield_is_choice: false,
             select_choice: true,
             max_choice_points: 5_000,
             max_steps: 100_000,
@@ -523,7 +528,15 @@ impl hannibal::verif::Backend for BackendImpl {
         }
     }
     fn yield_at_lock(&self) -> bool {
-        self.0.st.borrow().cfg.yield_at_lock
+        let (y, c) = {
+            let st = self.0.st.borrow();
+            (st.cfg.yield_at_lock, st.cfg.lock_yield_is_choice)
+        };
+        if y && c {
+            self.0.choose(2) == 0
+        } else {
+            y
+        }
     }
 }
 
